@@ -329,6 +329,15 @@ class WritableVersion(dns.zone.WritableVersion):
                 self.delegations.add(name)
                 self.update_glue_flag(name, True)
         node.replace_rdataset(rdataset)
+        if (
+            name in self.delegations
+            and node.get_rdataset(self.zone.rdclass, dns.rdatatype.NS) is None
+        ):
+            # Storing a CNAME evicts "other data", including the NS rdataset
+            # that made this a delegation point.
+            node.flags &= ~NodeFlags.DELEGATION  # type: ignore
+            self.delegations.discard(name)
+            self.update_glue_flag(name, False)
 
     def delete_rdataset(
         self,
